@@ -156,6 +156,11 @@ class LineRun:
                     self.model.system.simulate(d, trace=tr, print_summary=False)
                     # the end of a run is a quiescent point too
                     self.before_advance(self.model.env, None)
+                    gaps = spec.get('between') or []
+                    if k < len(gaps) and k + 1 < len(spec['horizon']):
+                        for op in gaps[k]:
+                            build_mod.ScriptAction(self.model.world, op, self.model.log)()
+                            self.count('operations_between_runs')
                 for m in self.monitors:
                     f = getattr(m, 'on_end', None)
                     if f is not None:
